@@ -260,6 +260,17 @@ func sameList(a, b []string) bool {
 	return true
 }
 
+func otherParsesDigest() string {
+	var b strings.Builder
+	for _, l := range otherRules {
+		r, err := flags.Parse(l)
+		fmt.Fprintf(&b, "%+v %v\n", r, err)
+	}
+	return b.String()
+}
+
+var otherParsesRef = otherParsesDigest()
+
 func propC14(c C14Case) error {
 	line := c.line()
 	// a related line first: parsing this one must not depend on it
@@ -271,15 +282,16 @@ func propC14(c C14Case) error {
 	if (r == nil) == (err == nil) {
 		return fmt.Errorf("%s: Parse returned (rule nil=%v, err=%v)", c.Describe(), r == nil, err)
 	}
+	// the rule handed out must not depend on what is parsed afterwards, nor those on what was parsed (or refused) before
+	if d := otherParsesDigest(); d != otherParsesRef {
+		return fmt.Errorf("%s: fixed lines parsed after this one differ from how they parsed when the process started:\n  now   %s\n  start %s", c.Describe(), d, otherParsesRef)
+	}
 	if c.Dangling != "" {
 		if err == nil {
 			return fmt.Errorf("%s: accepted as %+v although the line cannot be tokenised (it ends inside an escape or a quote)", c.Describe(), r)
 		}
 		hC14.Class("untokenisable-line-refused")
 		return nil
-	}
-	for _, l := range otherRules { // the rule handed out must not depend on what is parsed afterwards
-		_, _ = flags.Parse(l)
 	}
 	// reference interpretation of the token list
 	type farg struct {
